@@ -97,8 +97,33 @@ int main(int argc, char** argv) {
             }
         }
     }
+    // (c) several bunches on one radiation field (spacing 0, as main() builds it): every bunch's power is the integral of ITS
+    //     spectrum, and both equal what a single-bunch field reports for the same profile
+    for (unsigned n : ns) for (unsigned N : Ns) for (unsigned nb = 2; nb <= 3; nb++) for (int model = 0; model < 3; model++) {
+        if (N < 2 * n) continue;
+        std::string kase = mcx::Desc()("part", "multi")("n", n)("N", N)("nb", nb)("model", model).str();
+        if (!R.mine(kase)) continue;
+        if (R.out_of_time()) { R.not_completed = kase; goto done; }
+        std::vector<impedance_t> z(N);
+        for (unsigned k = 0; k < N; k++) z[k] = k <= N / 2 ? (model == 0 ? impedance_t(1.f, 0.f) : model == 1 ? impedance_t(30.f * std::pow((float)k + 0.5f, 1.f / 3), 17.f * std::pow((float)k + 0.5f, 1.f / 3)) : impedance_t(std::fabs(std::sin(1.1f * k)) * 50.f, std::cos(0.3f * k) * 80.f)) : impedance_t(0, 0);
+        std::vector<std::vector<float>> rho(nb, std::vector<float>(n));
+        for (unsigned b = 0; b < nb; b++) for (unsigned x = 0; x < n; x++) rho[b][x] = 0.1f * (b + 1) + std::fabs(std::sin(0.8f * x * (b + 1) + 0.3f * model)) + (x == b % n ? 1.5f : 0.f);
+        std::vector<std::vector<float>> S1(nb); std::vector<float> P1(nb);
+        for (unsigned b = 0; b < nb; b++) { Rig one(Cfg{n, 1, N, 0, {0}}); one.set_z(z); one.set_profile(0, rho[b]); one.f->updateCSR(0); S1[b].assign(one.f->getCSRSpectrum(), one.f->getCSRSpectrum() + N); P1[b] = one.f->getCSRPower()[0]; }
+        std::vector<uint32_t> bk; for (unsigned b = 0; b < nb; b++) bk.push_back(nb - 1 - b);
+        Rig rig(Cfg{n, nb, N, 0, bk}); rig.set_z(z);
+        for (unsigned b = 0; b < nb; b++) rig.set_profile(b, rho[b]);
+        rig.f->updateCSR(0);
+        const float* S = rig.f->getCSRSpectrum(); const float* P = rig.f->getCSRPower(); const double df = rig.f->getFreqRuler()->delta();
+        R.eval(kase, mcx::fnv(S, 4 * N * nb, mcx::fnv(P, 4 * nb, mcx::fnvs(kase))), false);
+        for (unsigned b = 0; b < nb; b++) {
+            double sum = 0, mag = 0, dmax = 0; for (unsigned k = 0; k < N; k++) { sum += S[b * N + k]; mag += std::fabs(S[b * N + k]); dmax = std::max(dmax, (double)std::fabs(S[b * N + k] - S1[b][k])); }
+            if (!(std::fabs(P[b] - df * sum) <= 2e-6 * df * mag)) { char d[200]; snprintf(d, 200, "bunch %u of %u: power %.9g but df*sum(spectrum) = %.9g", b, nb, P[b], df * sum); R.violate("C07/multi-bunch/power-is-not-integral-of-own-spectrum", kase, d); }
+            if (!(dmax <= 2e-6 * mag) || !(std::fabs(P[b] - P1[b]) <= 2e-6 * std::fabs(P1[b]))) { char d[200]; snprintf(d, 200, "bunch %u of %u: power %.9g, single-bunch field %.9g; max spectrum difference %.3g", b, nb, P[b], P1[b], dmax); R.violate("C07/multi-bunch/differs-from-single-bunch-field", kase, d); }
+        }
+    }
 done:
     R.numbers["worst_parseval_residual_rel"] = worst_rel;
-    R.bound_done("n x N x {Re Z = e_k (+ imaginary part), all k < N} x {e_i, e_i+e_j : all i <= j}; 6 impedance models x 4 dense profiles; 2 cut-offs each");
+    R.bound_done("n x N x {Re Z = e_k (+ imaginary part), all k < N} x {e_i, e_i+e_j : all i <= j}; 6 impedance models x 4 dense profiles; 2 cut-offs each; 2- and 3-bunch radiation fields x 3 impedances vs single-bunch fields");
     return R.finish();
 }
